@@ -464,36 +464,54 @@ theorem loopTimeAux_split (s : Item) (hs : s.src.kind = .segno) (iB : List Item)
     rw [loopTimeAux_split s hs iB hB iA (fun j hj => hA j (by simp [hj])), totalDur_cons]
     congr 1; omega
 
-theorem drumAt_plain : ∀ (l : List Item), (∀ i ∈ l, i.ev.type ≠ ev_DRUM_MODE) → ∀ d, Timeline.drumAt d l = d
-  | [], _, _ => rfl
-  | i :: is, h, d => by
-    simp [Timeline.drumAt, h i (by simp), drumAt_plain is (fun j hj => h j (by simp [hj]))]
-
 /-- a track without loop point: the expected tick string is the ticks of the performance -/
 theorem expected_noseg (song : Song) (pf : Timeline.Platform) (root : List Event) (items : List Item)
-    (hperf : perf song root = .ok items) (hd : ∀ i ∈ items, i.ev.type ≠ ev_DRUM_MODE)
-    (hn : ∀ i ∈ items, i.src.kind ≠ .segno) :
-    Timeline.expected song pf root = .ok (itemsTicks pf items) := by
-  unfold Timeline.expected
-  simp [hperf, ticksOf_plain song pf items hd, afterSegno_noseg items hn]
+    (hperf : perf song root = .ok items) (hn : ∀ i ∈ items, i.src.kind ≠ .segno) {t : List Tk}
+    (h : Timeline.expected song pf root = .ok t) :
+    t = ticksT (rhead song pf) pf false items ∧ DefT (rhead song pf) false items := by
+  unfold Timeline.expected at h
+  simp only [hperf] at h
+  cases ht : Timeline.ticksOf song pf false items with
+  | error x => rw [ht] at h; cases h
+  | ok all =>
+    rw [ht] at h
+    simp only [afterSegno_noseg items hn, Except.ok.injEq] at h
+    exact ⟨by rw [← h]; exact ticksOf_eq song pf items false all ht, ticksOf_def song pf items false all ht⟩
 
 /-- a track that splits at its loop point: what is replayed after the loop-back jump is the part
-after the loop point — unless that part takes no time, then the track just ends -/
+after the loop point, in the drum-mode state the track ends in — unless that part takes no time,
+then the track just ends -/
 theorem expected_split (song : Song) (pf : Timeline.Platform) (root : List Event) (iA iB : List Item) (s : Item)
-    (hperf : perf song root = .ok (iA ++ s :: iB)) (hd : ∀ i ∈ iA ++ s :: iB, i.ev.type ≠ ev_DRUM_MODE)
-    (hs : s.src.kind = .segno) (hA : ∀ i ∈ iA, i.src.kind ≠ .segno) (hB : ∀ i ∈ iB, i.src.kind ≠ .segno) :
-    Timeline.expected song pf root =
-      .ok (if totalDur (iA ++ s :: iB) = totalDur iA then itemsTicks pf (iA ++ s :: iB)
-           else itemsTicks pf (iA ++ s :: iB) ++ [Tk.loopMark] ++ itemsTicks pf iB) ∧
-    loopTime (iA ++ s :: iB) = some (totalDur iA) := by
+    (hperf : perf song root = .ok (iA ++ s :: iB))
+    (hs : s.src.kind = .segno) (hA : ∀ i ∈ iA, i.src.kind ≠ .segno) (hB : ∀ i ∈ iB, i.src.kind ≠ .segno)
+    {t : List Tk} (h : Timeline.expected song pf root = .ok t) :
+    t = (if totalDur (iA ++ s :: iB) = totalDur iA then ticksT (rhead song pf) pf false (iA ++ s :: iB)
+         else ticksT (rhead song pf) pf false (iA ++ s :: iB) ++ [Tk.loopMark] ++
+           ticksT (rhead song pf) pf (Timeline.drumAt false (iA ++ s :: iB)) iB) ∧
+    loopTime (iA ++ s :: iB) = some (totalDur iA) ∧ DefT (rhead song pf) false (iA ++ s :: iB) ∧
+    (totalDur (iA ++ s :: iB) ≠ totalDur iA → DefT (rhead song pf) (Timeline.drumAt false (iA ++ s :: iB)) iB) := by
   have hlt : loopTime (iA ++ s :: iB) = some (totalDur iA) := by
     unfold loopTime
     rw [loopTimeAux_split s hs iB hB iA hA]; simp
-  refine ⟨?_, hlt⟩
-  have hdB : ∀ i ∈ iB, i.ev.type ≠ ev_DRUM_MODE := fun i hi => hd i (by simp [hi])
-  unfold Timeline.expected
-  simp only [hperf, ticksOf_plain song pf _ hd, afterSegno_split s hs iB hB iA, hlt, drumAt_plain _ hd,
-    ticksOf_plain song pf iB hdB]
-  split <;> rfl
+  unfold Timeline.expected at h
+  simp only [hperf] at h
+  cases ht : Timeline.ticksOf song pf false (iA ++ s :: iB) with
+  | error x => rw [ht] at h; cases h
+  | ok all =>
+    rw [ht] at h
+    simp only [afterSegno_split s hs iB hB iA, hlt] at h
+    have hall := ticksOf_eq song pf _ false all ht
+    have hdef := ticksOf_def song pf _ false all ht
+    by_cases hz : totalDur (iA ++ s :: iB) = totalDur iA
+    · rw [if_pos hz] at h ⊢
+      simp only [Except.ok.injEq] at h
+      exact ⟨by rw [← h]; exact hall, hlt, hdef, fun hne => absurd hz hne⟩
+    · rw [if_neg hz] at h ⊢
+      cases ht2 : Timeline.ticksOf song pf (Timeline.drumAt false (iA ++ s :: iB)) iB with
+      | error x => rw [ht2] at h; cases h
+      | ok again =>
+        rw [ht2] at h
+        simp only [Except.ok.injEq] at h
+        exact ⟨by rw [← h, hall, ticksOf_eq song pf iB _ again ht2], hlt, hdef, fun _ => ticksOf_def song pf iB _ again ht2⟩
 
 end Ctrmml.SongSplit
